@@ -64,3 +64,110 @@ pub proof fn lemma_expiry_window(t: PersonalAccessToken, t0: IggyTimestamp, d: I
     ensures expired_at(t, now) <==> now.0 >= t0.0 + d.0,
 {
 }
+
+// ---- LINK harnesses: the contracts other units ASSUME for functions proved here, proved from the real ones ---------------------
+// Each harness has the assuming unit's stub signature, its `requires` / `ensures` copied VERBATIM from that unit's prelude.rs, and a
+// body that is ONE call of the real extracted function: Verus proves "real contract ==> assumed contract" on every run.
+// A later edit of a stub has to be mirrored here (and vice versa).
+//
+// (vocabulary of units/authn_gate/prelude.rs used by the copied clauses: `user_of`, `sys_only_users`, `user_names_unique` are verbatim copies.
+//  `name_key` is UNINTERPRETED there — "which key the by-name scan yields is a function of the map" —; the link gives it the
+//  interpretation "the key that holds the name", which the scan is bound to yield only when user names are unique: the stubs had silently
+//  assumed that determinism, the link adds `user_names_unique` as their precondition for non-numeric identifiers.)
+pub open spec fn name_key(users: Map<u32, User>, name: Name) -> Option<u32> {
+    if exists|k: u32| users.contains_key(k) && (#[trigger] users[k]).username == name {
+        Some(choose|k: u32| users.contains_key(k) && (#[trigger] users[k]).username == name)
+    } else { None }
+}
+pub open spec fn user_of(users: Map<u32, User>, ident: &Identifier) -> Option<u32> {
+    if ident.kind == IdKind::Numeric {
+        if ident.length == 4 && users.contains_key(ident.num()) { Some(ident.num()) } else { None }
+    } else {
+        match name_key(users, ident.text()) { Some(k) => if users.contains_key(k) { Some(k) } else { None }, None => None }
+    }
+}
+pub open spec fn user_names_unique(users: Map<u32, User>) -> bool {
+    forall|a: u32, b: u32| #![trigger users[a], users[b]] users.contains_key(a) && users.contains_key(b) && users[a].username == users[b].username ==> a == b
+}
+pub open spec fn sys_only_users(a: &System, b: &System) -> bool {
+    *b == (System { users: b.users, ..*a })
+}
+// under unique names every record carrying the name sits at the key `name_key` denotes
+pub proof fn lemma_name_key(users: Map<u32, User>, name: Name)
+    ensures user_names_unique(users) ==> forall|k: u32| #[trigger] users.contains_key(k) && users[k].username == name ==> name_key(users, name) == Some(k),
+{
+    if user_names_unique(users) {
+        assert forall|k: u32| #[trigger] users.contains_key(k) && users[k].username == name implies name_key(users, name) == Some(k) by {
+            let k2 = choose|k: u32| users.contains_key(k) && (#[trigger] users[k]).username == name;
+            assert(users[k2].username == users[k].username);
+        }
+    }
+}
+impl System {
+    // copied from units/authn_gate/prelude.rs, stub `System::try_get_user` (requires ADDED by the link)
+    // label: C10.link.authn_gate.try_get_user
+    pub fn link_authn_gate_try_get_user(&self, user_id: &Identifier) -> (r: Result<Option<&User>, IggyError>)
+        requires user_id.kind != IdKind::Numeric ==> user_names_unique(self.users@),
+        ensures match r {
+            Ok(Some(u)) => user_of(self.users@, user_id) matches Some(k) && *u == self.users@[k],
+            Ok(None) => user_of(self.users@, user_id) is None,
+            Err(_) => true },
+    {
+        proof { lemma_name_key(self.users@, user_id.text()); }
+        self.try_get_user(user_id)
+    }
+    // copied from units/authn_gate/prelude.rs, stub `System::get_user` (requires ADDED by the link)
+    // label: C10.link.authn_gate.get_user
+    pub fn link_authn_gate_get_user(&self, user_id: &Identifier) -> (r: Result<&User, IggyError>)
+        requires user_id.kind != IdKind::Numeric ==> user_names_unique(self.users@),
+        ensures match r {
+            Ok(u) => user_of(self.users@, user_id) matches Some(k) && *u == self.users@[k],
+            Err(_) => user_of(self.users@, user_id) is None },
+    {
+        proof { lemma_name_key(self.users@, user_id.text()); }
+        self.get_user(user_id)
+    }
+    // copied from units/authn_gate/prelude.rs, stub `System::get_user_mut` (requires ADDED by the link)
+    // label: C10.link.authn_gate.get_user_mut
+    pub fn link_authn_gate_get_user_mut(&mut self, user_id: &Identifier) -> (r: Result<&mut User, IggyError>)
+        requires user_id.kind != IdKind::Numeric ==> user_names_unique(old(self).users@),
+        ensures match r {
+            Ok(u) => user_of(old(self).users@, user_id) matches Some(k) && *u == old(self).users@[k]
+                && final(self).users@ == old(self).users@.insert(k, *final(u)) && sys_only_users(old(self), final(self)),
+            Err(_) => user_of(old(self).users@, user_id) is None && *final(self) == *old(self) },
+    {
+        proof { lemma_name_key(old(self).users@, user_id.text()); }
+        self.get_user_mut(user_id)
+    }
+}
+impl User {
+    // copied from units/authn_gate/prelude.rs, stub `User::new`
+    // label: C10.link.authn_gate.User_new
+    pub fn link_authn_gate_user_new(id: u32, username: &Name, password: &Name, status: UserStatus, permissions: Option<Permissions>) -> (r: User)
+        ensures r.id == id,
+    { User::new(id, username, password, status, permissions) }
+    // copied from units/alloc_runtime/prelude.rs, stub `User::new`
+    // label: C10.link.alloc_runtime.User_new
+    pub fn link_alloc_runtime_user_new(id: u32, username: &Name, password: &Name, status: UserStatus, permissions: Option<Permissions>) -> (r: User)
+        ensures r.id == id && r.username == *username,
+    { User::new(id, username, password, status, permissions) }
+}
+impl System {
+    // copied from units/alloc_runtime/prelude.rs, stub `System::get_user` (a relational contract: no precondition needed)
+    // label: C10.link.alloc_runtime.get_user
+    pub fn link_alloc_runtime_get_user(&self, user_id: &Identifier) -> (r: Result<&User, IggyError>)
+        ensures
+            r matches Ok(u) ==> exists|k: u32| #[trigger] self.users@.contains_key(k) && self.users@[k] == *u
+                && (user_id.kind == IdKind::Numeric ==> user_id.length == 4 && k == user_id.num()),
+            (user_id.kind == IdKind::Numeric && user_id.length == 4 && self.users@.contains_key(user_id.num())) ==> r is Ok,
+    { self.get_user(user_id) }
+}
+// (vocabulary of units/journal_sinks/prelude.rs: `token_digest` is uninterpreted there; it is this unit's digest `H`)
+pub open spec fn token_digest(raw: Name) -> Name { H(raw) }
+impl PersonalAccessToken {
+    // copied from units/journal_sinks/prelude.rs, stub `PersonalAccessToken::hash_token`
+    // label: C10.link.journal_sinks.hash_token
+    pub fn link_journal_sinks_hash_token(token: &Name) -> (r: Name)
+        ensures r == token_digest(*token),
+    { PersonalAccessToken::hash_token(token) }
+}
